@@ -185,11 +185,12 @@ class Stmt:
 
 
 class Callee:
-    __slots__ = ("path", "full", "orig", "orig_full", "trait", "name", "krate", "local", "is_closure", "kind", "gargs", "j")
+    __slots__ = ("path", "dpath", "full", "orig", "orig_full", "trait", "name", "krate", "local", "is_closure", "kind", "gargs", "j")
 
     def __init__(self, j):
         self.j = j
         self.path = j["path"]
+        self.dpath = j.get("dpath", self.path)
         self.full = j.get("full", self.path)
         self.orig = j.get("orig", self.path)
         self.orig_full = j.get("orig_full", self.path)
